@@ -48,7 +48,8 @@ pub fn float_codec(text: &str) -> Option<String> {
     let v: f64 = if text.starts_with("0x") || text.starts_with("0X") {
         u64::from_str_radix(&text[2..], 16).ok()? as f64
     } else {
-        text.parse::<f64>().ok()?
+        // (a literal that is too large parses as infinity: rejected as malformed since fix 1ba05af)
+        text.parse::<f64>().ok().filter(|v| v.is_finite())?
     };
     Some(if v == 0f64 {
         "0".to_string()
@@ -154,7 +155,7 @@ pub fn float_table(text: &str) -> String {
                     floats.push(format!("{}={}", hex(t.as_bytes()), hex(p.as_bytes())));
                 }
                 // f32 variant for A2ML `float` members: key prefixed with `f32:`
-                if let Ok(v) = t.parse::<f32>() {
+                if let Some(v) = t.parse::<f32>().ok().filter(|v| v.is_finite()) {
                     let v = v as f64;
                     let p = if v == 0f64 { "0".to_string() } else if v < -1e+10 || (-0.0001 < v && v < 0.0001) || 1e+10 < v { format!("{v:e}") } else { format!("{v}") };
                     floats.push(format!("{}={}", hex(format!("f32:{t}").as_bytes()), hex(p.as_bytes())));
